@@ -127,18 +127,6 @@ Definition Inv0 (t : node) : Prop := t = empty_tree \/ (wf t /\ bounded t).
 Lemma inv0_inv t : Inv0 t -> Inv t.
 Proof. intros [->|[Hw _]]; [apply inv_empty|left; exact Hw]. Qed.
 
-(* a history is safe when rename-mode Adds use fresh keys and Remove("") is not applied to the empty map *)
-Fixpoint safe0 (m : list entry) (ops : list op) : Prop :=
-  match ops with
-  | [] => True
-  | o :: r =>
-      match o with
-      | OAdd _ _ => True
-      | OAddRn k _ => m_lookup k m = None
-      | ORemove k => m = [] -> k <> []
-      end /\ safe0 (spec_step m o) r
-  end.
-
 Lemma add_inv0 t k v : Inv0 t -> Inv0 (tadd false t k v) /\ entries (tadd false t k v) = m_add k v (entries t).
 Proof.
   intros Hi. destruct (add_inv t k v (inv0_inv t Hi)) as [Hi' He]. split; [|exact He].
@@ -148,7 +136,7 @@ Proof.
   - destruct Hi as [->|[_ Hb]]; [cbn; unfold maxEntries; lia|apply add_bounded; exact Hb].
 Qed.
 
-Lemma history_from_reachable ops : forall t, Inv0 t -> safe0 (entries t) ops ->
+Lemma history_from_reachable ops : forall t, Inv0 t -> rn_fresh (entries t) ops ->
   exists t', run ops t = Some t' /\ Inv0 t' /\ entries t' = spec_run ops (entries t).
 Proof.
   induction ops as [|o r IH]; intros t Hi Hs.
@@ -159,17 +147,15 @@ Proof.
     + rewrite (add_rn_fresh t k v Ho).
       destruct (add_inv0 t k v Hi) as [Hi' He]. rewrite <- He in *. exact (IH _ Hi' Hs).
     + destruct Hi as [->|[Hw Hb]].
-      * cbn [entries empty_tree] in *. specialize (Ho eq_refl).
-        destruct (remove_empty_leaf [] [] k) as [Hp|Hr].
-        -- exfalso. apply remove_empty_leaf_panic_iff in Hp. destruct Hp as (_ & _ & [E|E]); congruence.
-        -- unfold empty_tree. rewrite Hr. cbn [m_remove] in Hs. apply (IH (Leaf [] [] [])); [left; reflexivity|exact Hs].
+      * cbn [entries empty_tree] in *. unfold empty_tree. rewrite remove_empty_leaf.
+        cbn [m_remove] in Hs. apply (IH (Leaf [] [] [])); [left; reflexivity|exact Hs].
       * destruct (remove_ok t k Hw) as (n' & e & ok & E & _ & He & _ & _ & Hwf).
         rewrite E. destruct (remove_bounded t k n' e ok Hw Hb E) as [Hb' Hemp].
         rewrite <- He in Hs. rewrite <- He. apply IH; [|exact Hs].
         destruct e; [left; apply Hemp; reflexivity|right; split; [apply Hwf; reflexivity|exact Hb']].
 Qed.
 
-Lemma history_from_empty ops : safe0 [] ops ->
+Lemma history_from_empty ops : rn_fresh [] ops ->
   exists t, run ops empty_tree = Some t /\ Inv0 t /\ entries t = spec_run ops [] /\
             lsorted (keys t) /\ (forall k, tvalue t k = m_lookup k (spec_run ops [])).
 Proof.
